@@ -7,7 +7,7 @@
 set -u
 SRC="$1"; NAME="$2"
 W=/tmp/vs_work/$NAME
-export CARGO_TARGET_DIR=/tmp/vs_work/target
+export CARGO_TARGET_DIR=${VS_TARGET:-/tmp/vs_work/target}
 export CARGO_NET_OFFLINE=true
 export CARGO_INCREMENTAL=0
 export CARGO_PROFILE_DEV_DEBUG=0
